@@ -4,6 +4,9 @@ import HbsModel.Props.C08
 import HbsModel.Props.C01
 import HbsModel.Lemmas.CompileValue
 import HbsModel.Lemmas.PlainTags
+import HbsModel.Lemmas.CompileName
+import HbsModel.Lemmas.CompileHtmlName
+import HbsModel.Lemmas.NameTags
 
 import HbsModel.Lemmas.RenderPlain
 /-
@@ -544,7 +547,7 @@ theorem texts_and_tags_render (r : Registry) (fs : FS) (s0 : Str) (more : List (
     · exact PlainText.tagThisSlash_at
     · exact PlainText.tagDotSlash_at
     · exact PlainText.tagSpaced_at
-  obtain ⟨m, hcomp⟩ := PlainText.compile_texts_tags 150 (by decide) { preventIndent := r.preventIndent } s0 (ctags more) hTs hok
+  obtain ⟨m, hcomp⟩ := PlainText.compile_texts_tags 150 { preventIndent := r.preventIndent } s0 (ctags more) (Or.inl (by decide)) hTs hok
   unfold textsAndTags
   rw [hcomp]
   simp only [Registry.renderResolved, hdev, Bool.not_false, ↓reduceIte]
@@ -588,5 +591,379 @@ example : TextsOk ['a', ' '] [(.dbl, [' ', ' ']), (.triple, ['b', '{'])] := by
   refine ⟨Or.inr ⟨by simp [PlainText.noOpen], by simp, by simp⟩, Or.inr ⟨by simp [PlainText.noOpen], by simp, by simp⟩, ?_⟩
   show PlainText.noOpen ['b', '{']
   simp [PlainText.noOpen]
+
+/-! ### every identifier: `{{name}}` between two texts -/
+
+/-- the compiled value expression of the one-segment path `nm` writes `escape (text of data.nm)` -/
+theorem named_value_writes_escaped (nm : Str) (reg : Registry) (root j : Json) (rc0 : RC)
+    (hb : rc0.blocks = [{}]) (hi : rc0.indentString = none) (hmc : rc0.modifiedCtx = none) (hde : rc0.disableEscape = false)
+    (hl : assocGet rc0.localHelpers nm = none) (hr : assocGet reg.helpers nm = none)
+    (hsafe : Spec.indexSafe root [nm] = true) (hj : Spec.descend root [nm] = some j) :
+    WritesText reg root rc0 (.expr (PlainText.nameHT nm)) (reg.escape j.render) := by
+  intro fuel rc out hq hf
+  have hev : evaluate2 root (.relative [.named nm] nm) rc out = .ok (.context j [nm]) rc out := by
+    have hblocks : rc.blocks = [{}] := by rw [hq.blocks, hb]
+    have := C01.navigate_current_path_scope root {} [] nm [] rc out (by simp [getInBlockParams, assocGet]) rfl (by simpa using hsafe)
+    simp only [C01.names, List.map_cons, List.map_nil] at this
+    simp only [evaluate2, RM.bind_def, RM.bnd_apply, RM.get_apply, hblocks, this, C01.blockValue, Spec.descend]
+    simp only [Option.bind]
+    have hj' : (Spec.step root nm).bind (fun v' => Spec.descend v' []) = some j := by simpa [Spec.descend] using hj
+    simp [Spec.descend] at hj' ⊢
+    rw [hj']
+  have h : renderElem reg root (fuel + 6) (.expr (PlainText.nameHT nm)) rc out = _ :=
+    expr_path_escapes_once reg root (fuel + 2) (PlainText.nameHT nm) (.relative [.named nm] nm) rc out (.context j [nm])
+      rfl rfl (by rw [hq]; exact hl) hr (by rw [hq]; exact hmc) (by rw [hq]; exact hde) hev rfl
+  rw [h]
+  exact indentAwareWrite_quiet rc0 hi _ rc out hq hf
+
+/-- `{{` name `}}` -/
+abbrev nameTag (nm : Str) : Str := PlainText.identSrc nm
+
+/-- **render(L ++ {{name}} ++ R) = L ++ escape(text of data.name) ++ R for EVERY identifier** – any non-empty run
+    of the grammar's `symbol_char` class (ASCII letters and digits, `-`, `_`, `$`, `:`, every character from U+0080 up)
+    that does not begin with `else` and is not `this`, of any length – between every text `L` that may stand before a
+    tag and every text `R` without `{{`, for every data value and every escape function.  The tag's pairs are DERIVED
+    from the regenerated grammar for all names at once (Lemmas/NameTag: the loops of `identifier` and `path_id` by
+    induction over the name, `symbol_char` as a character class); compile2 and the renderer as for `{{v}}`. -/
+theorem name_between_texts_escaped_once (r : Registry) (fs : FS) (nm L R : Str) (data j : Json) (hdev : r.dev = false)
+    (hnm : PlainText.IdentName nm) (hthis : (nm == str "this") = false)
+    (hL : L = [] ∨ PlainText.TextBeforeTag L) (hR : PlainText.noOpen R)
+    (hnohelper : assocGet r.helpers nm = none)
+    (hsafe : Spec.indexSafe data [nm] = true) (hj : Spec.descend data [nm] = some j) :
+    r.renderTemplate fs (L ++ nameTag nm ++ R) data = .ok (L ++ r.escape j.render ++ R) := by
+  unfold Registry.renderTemplate Registry.renderTemplateToWrite Registry.renderTemplateWithContextToWrite
+    Registry.compileForRenderTemplate
+  obtain ⟨m, hcomp⟩ := PlainText.compile_text_name_text_pos nm L _ _ { preventIndent := r.preventIndent } hnm hthis hL
+    (PlainText.textAfterTag_split R hR)
+  rw [← PlainText.split_ws R] at hcomp
+  rw [hcomp]
+  simp only [Registry.renderResolved, hdev, Bool.not_false, ↓reduceIte]
+  let ets : List (Elem × Str) := (if L = [] then [] else [(.raw L, L)]) ++ [(.expr (PlainText.nameHT nm), r.escape j.render)]
+    ++ (if R = [] then [] else [(.raw R, R)])
+  have hel : (PlainText.leftT L L).elements ++ [Elem.expr (PlainText.nameHT nm)] ++ (if R = [] then [] else [Elem.raw R]) = ets.map (·.1) := by
+    simp only [ets]
+    by_cases hLe : L = [] <;> by_cases hRe : R = [] <;> simp [hLe, hRe, PlainText.leftT, Tmpl.empty, Tmpl.elements]
+  have htxt : (ets.map (·.2)).flatten = L ++ r.escape j.render ++ R := by
+    simp only [ets]
+    by_cases hLe : L = [] <;> by_cases hRe : R = [] <;> simp [hLe, hRe]
+  rw [hel]
+  have hw : ∀ p ∈ ets, WritesText r data { ({ rootTemplate := none } : RC) with currentTemplate := none } p.1 p.2 := by
+    intro p hp
+    simp only [ets, List.mem_append, List.mem_singleton] at hp
+    rcases hp with (hp | rfl) | hp
+    · split at hp
+      · simp at hp
+      · simp at hp; subst hp; exact writes_raw r data _ rfl L
+    · exact named_value_writes_escaped nm r data j _ rfl rfl rfl rfl rfl hnohelper hsafe hj
+    · split at hp
+      · simp at hp
+      · simp at hp; subst hp; exact writes_raw r data _ rfl R
+  have hlen : ets.length + 12 ≤ renderFuel := by
+    have h1 : (if L = [] then [] else [((Elem.raw L, L) : Elem × Str)]).length ≤ 1 := by split <;> simp
+    have h2 : (if R = [] then [] else [((Elem.raw R, R) : Elem × Str)]).length ≤ 1 := by split <;> simp
+    simp only [ets, List.length_append, List.length_singleton]
+    have : renderFuel = 4000 := rfl
+    omega
+  have := render_writes_template r data none ets ((PlainText.leftT L L).mapping ++ [Pest.lineCol (L ++ PlainText.identSrc nm ++ R) L.length] ++ m) { rootTemplate := none } hlen hw
+  simp only [Tmpl.name] at this ⊢
+  rw [this, htxt]
+
+/-- non-vacuity: the name `größe-1:x` (with a non-ASCII letter), data `{"größe-1:x": "<b>"}` -/
+example : PlainText.IdentName ['g', 'r', 'ö', 'ß', 'e', '-', '1', ':', 'x'] ∧ (['g', 'r', 'ö', 'ß', 'e', '-', '1', ':', 'x'] == str "this") = false := by
+  refine ⟨⟨by simp, by decide, by decide⟩, by decide⟩
+
+/-- the boundary of the class is the grammar's: `elsewhere` is NOT a name (pest reads `{{else` as an inverse tag) and
+    a name containing `.` or a space is not one either -/
+example : ¬ PlainText.IdentName ['e', 'l', 's', 'e', 'w', 'h', 'e', 'r', 'e'] ∧ ¬ PlainText.IdentName ['a', '.', 'b'] := by
+  refine ⟨fun h => absurd h.notElse (by decide), fun h => absurd (h.sym '.' (by simp)) (by decide)⟩
+
+/-- the compiled `{{{name}}}` / `{{&name}}` writes the text of data.name as it is and leaves escaping on -/
+theorem named_html_writes_raw (nm : Str) (reg : Registry) (root j : Json) (rc0 : RC)
+    (hb : rc0.blocks = [{}]) (hi : rc0.indentString = none) (hmc : rc0.modifiedCtx = none) (hde : rc0.disableEscape = false)
+    (hl : assocGet rc0.localHelpers nm = none) (hr : assocGet reg.helpers nm = none)
+    (hsafe : Spec.indexSafe root [nm] = true) (hj : Spec.descend root [nm] = some j) :
+    WritesText reg root rc0 (.html (PlainText.nameHT nm)) j.render := by
+  intro fuel rc out hq hf
+  have hev : ∀ rc', rc'.blocks = rc.blocks → evaluate2 root (.relative [.named nm] nm) rc' out = .ok (.context j [nm]) rc' out := by
+    intro rc' hbl
+    have hblocks : rc'.blocks = [{}] := by rw [hbl, hq.blocks, hb]
+    have := C01.navigate_current_path_scope root {} [] nm [] rc' out (by simp [getInBlockParams, assocGet]) rfl (by simpa using hsafe)
+    simp only [C01.names, List.map_cons, List.map_nil] at this
+    simp only [evaluate2, RM.bind_def, RM.bnd_apply, RM.get_apply, hblocks, this, C01.blockValue, Spec.descend]
+    simp only [Option.bind]
+    have hj' : (Spec.step root nm).bind (fun v' => Spec.descend v' []) = some j := by simpa [Spec.descend] using hj
+    simp [Spec.descend] at hj' ⊢
+    rw [hj']
+  have h : renderElem reg root (fuel + 6) (.html (PlainText.nameHT nm)) rc out = _ :=
+    html_never_escapes reg root (fuel + 2) (PlainText.nameHT nm) (.relative [.named nm] nm) rc out (.context j [nm])
+      rfl rfl (by rw [hq]; exact hl) hr (by rw [hq]; exact hmc) hev rfl
+  rw [h]
+  have hq' : Quiet { rc0 with disableEscape := true } { rc with disableEscape := true } := by
+    unfold Quiet at *; rw [hq]
+  obtain ⟨rc1, out1, hw, hq1, hf1, ht1⟩ := indentAwareWrite_quiet { rc0 with disableEscape := true } hi j.render
+    { rc with disableEscape := true } out hq' hf
+  refine ⟨{ rc1 with disableEscape := false }, out1, ?_, ?_, hf1, ht1⟩
+  · simp only [RM.escOffReset, RM.bracket_apply]
+    have : SJ.asJson (.context j [nm]) = j := rfl
+    rw [this, hw]
+  · unfold Quiet at *
+    rw [hq1]
+    simp [hde]
+
+/-- the common part: a compiled template  text, `.html (name)`, text  renders as  L ++ text of data.name ++ R -/
+theorem html_name_render (r : Registry) (fs : FS) (nm L R src : Str) (data j : Json) (m : List (Nat × Nat)) (hdev : r.dev = false)
+    (hcomp : compile2 src { preventIndent := r.preventIndent } = .ok (.mk none
+      ((PlainText.leftT L L).elements ++ [.html (PlainText.nameHT nm)] ++ (if R = [] then [] else [.raw R])) m))
+    (hnohelper : assocGet r.helpers nm = none)
+    (hsafe : Spec.indexSafe data [nm] = true) (hj : Spec.descend data [nm] = some j) :
+    r.renderTemplate fs src data = .ok (L ++ j.render ++ R) := by
+  unfold Registry.renderTemplate Registry.renderTemplateToWrite Registry.renderTemplateWithContextToWrite
+    Registry.compileForRenderTemplate
+  rw [hcomp]
+  simp only [Registry.renderResolved, hdev, Bool.not_false, ↓reduceIte]
+  let ets : List (Elem × Str) := (if L = [] then [] else [(.raw L, L)]) ++ [(.html (PlainText.nameHT nm), j.render)]
+    ++ (if R = [] then [] else [(.raw R, R)])
+  have hel : (PlainText.leftT L L).elements ++ [Elem.html (PlainText.nameHT nm)] ++ (if R = [] then [] else [Elem.raw R]) = ets.map (·.1) := by
+    simp only [ets]
+    by_cases hLe : L = [] <;> by_cases hRe : R = [] <;> simp [hLe, hRe, PlainText.leftT, Tmpl.empty, Tmpl.elements]
+  have htxt : (ets.map (·.2)).flatten = L ++ j.render ++ R := by
+    simp only [ets]
+    by_cases hLe : L = [] <;> by_cases hRe : R = [] <;> simp [hLe, hRe]
+  rw [hel]
+  have hw : ∀ p ∈ ets, WritesText r data { ({ rootTemplate := none } : RC) with currentTemplate := none } p.1 p.2 := by
+    intro p hp
+    simp only [ets, List.mem_append, List.mem_singleton] at hp
+    rcases hp with (hp | rfl) | hp
+    · split at hp
+      · simp at hp
+      · simp at hp; subst hp; exact writes_raw r data _ rfl L
+    · exact named_html_writes_raw nm r data j _ rfl rfl rfl rfl rfl hnohelper hsafe hj
+    · split at hp
+      · simp at hp
+      · simp at hp; subst hp; exact writes_raw r data _ rfl R
+  have hlen : ets.length + 12 ≤ renderFuel := by
+    have h1 : (if L = [] then [] else [((Elem.raw L, L) : Elem × Str)]).length ≤ 1 := by split <;> simp
+    have h2 : (if R = [] then [] else [((Elem.raw R, R) : Elem × Str)]).length ≤ 1 := by split <;> simp
+    simp only [ets, List.length_append, List.length_singleton]
+    have : renderFuel = 4000 := rfl
+    omega
+  have := render_writes_template r data none ets m { rootTemplate := none } hlen hw
+  simp only [Tmpl.name] at this ⊢
+  rw [this, htxt]
+
+/-- **render(L ++ {{{name}}} ++ R) = L ++ text of data.name ++ R for EVERY identifier**: the value reaches the output as
+    it is – the escape function is not called – whatever the name, the texts, the value and the escape function -/
+theorem triple_name_between_texts_never_escaped (r : Registry) (fs : FS) (nm L R : Str) (data j : Json) (hdev : r.dev = false)
+    (hnm : PlainText.IdentName nm) (hthis : (nm == str "this") = false)
+    (hL : L = [] ∨ PlainText.TextBeforeTag L) (hR : PlainText.noOpen R)
+    (hnohelper : assocGet r.helpers nm = none)
+    (hsafe : Spec.indexSafe data [nm] = true) (hj : Spec.descend data [nm] = some j) :
+    r.renderTemplate fs (L ++ PlainText.htmlSrc nm ++ R) data = .ok (L ++ j.render ++ R) := by
+  obtain ⟨m, hcomp⟩ := PlainText.compile_text_htmlname_text_pos ['{'] ['}', '}', '}'] nm L _ _ { preventIndent := r.preventIndent } rfl
+    (by simp) (nm.length + 110) (by omega) (by simpa [PlainText.hsrcG, PlainText.htmlSrc] using PlainText.html_name_tagAt nm hnm) hthis hL
+    (PlainText.textAfterTag_split R hR)
+  rw [← PlainText.split_ws R] at hcomp
+  exact html_name_render r fs nm L R _ data j _ hdev (by simpa [PlainText.hsrcG, PlainText.htmlSrc] using hcomp) hnohelper hsafe hj
+
+/-- **render(L ++ {{&name}} ++ R) = L ++ text of data.name ++ R for EVERY identifier** -/
+theorem amp_name_between_texts_never_escaped (r : Registry) (fs : FS) (nm L R : Str) (data j : Json) (hdev : r.dev = false)
+    (hnm : PlainText.IdentName nm) (hthis : (nm == str "this") = false)
+    (hL : L = [] ∨ PlainText.TextBeforeTag L) (hR : PlainText.noOpen R)
+    (hnohelper : assocGet r.helpers nm = none)
+    (hsafe : Spec.indexSafe data [nm] = true) (hj : Spec.descend data [nm] = some j) :
+    r.renderTemplate fs (L ++ PlainText.ampSrc nm ++ R) data = .ok (L ++ j.render ++ R) := by
+  obtain ⟨m, hcomp⟩ := PlainText.compile_text_htmlname_text_pos ['&'] ['}', '}'] nm L _ _ { preventIndent := r.preventIndent } rfl
+    (by simp) (nm.length + 110) (by omega) (by simpa [PlainText.hsrcG, PlainText.ampSrc] using PlainText.amp_name_tagAt nm hnm) hthis hL
+    (PlainText.textAfterTag_split R hR)
+  rw [← PlainText.split_ws R] at hcomp
+  exact html_name_render r fs nm L R _ data j _ hdev (by simpa [PlainText.hsrcG, PlainText.ampSrc] using hcomp) hnohelper hsafe hj
+
+/-! ### any number of value tags of ANY identifiers – each in any of the three forms – between texts -/
+
+/-- the three forms of a value tag -/
+inductive NForm where
+  | dbl        -- {{name}}
+  | triple     -- {{{name}}}
+  | amp        -- {{&name}}
+deriving DecidableEq
+
+/-- a value tag: its form and its name -/
+structure NTag where
+  form : NForm
+  nm : Str
+
+/-- the tag as written -/
+def NTag.text (t : NTag) : Str :=
+  match t.form with
+  | .dbl => ['{', '{'] ++ t.nm ++ ['}', '}']
+  | .triple => ['{', '{', '{'] ++ t.nm ++ ['}', '}', '}']
+  | .amp => ['{', '{', '&'] ++ t.nm ++ ['}', '}']
+
+/-- what the tag writes for the value `j` under the escape function `esc` -/
+def NTag.output (esc : Str → Str) (j : Json) (t : NTag) : Str :=
+  match t.form with
+  | .dbl => esc j.render
+  | _ => j.render
+
+/-- `S0 T1 S1 T2 … Tk Sk` -/
+def namedSrc (s0 : Str) (more : List (NTag × Str)) : Str := s0 ++ (more.map (fun q => q.1.text ++ q.2)).flatten
+
+def NTag.ctag (t : NTag) : PlainText.CTag :=
+  if h : (t.nm == str "this") = false then
+    match t.form with
+    | .dbl => PlainText.identCTag [] ['}', '}'] t.nm false (by decide) h
+    | .triple => PlainText.identCTag ['{'] ['}', '}', '}'] t.nm true (by decide) h
+    | .amp => PlainText.identCTag ['&'] ['}', '}'] t.nm true (by decide) h
+  else PlainText.tagValue
+
+def nctags (more : List (NTag × Str)) : List (PlainText.CTag × Str) := more.map (fun q => (q.1.ctag, q.2))
+
+theorem NTag.ctag_src (t : NTag) (h : (t.nm == str "this") = false) : t.ctag.tag.src = t.text := by
+  obtain ⟨f, nm⟩ := t
+  cases f <;> simp [NTag.ctag, h, NTag.text, PlainText.identCTag, PlainText.PTag.src]
+
+theorem NTag.ctag_el (t : NTag) (h : (t.nm == str "this") = false) :
+    t.ctag.el = (match t.form with | .dbl => .expr (PlainText.nameHT t.nm) | _ => .html (PlainText.nameHT t.nm)) := by
+  obtain ⟨f, nm⟩ := t
+  cases f <;> simp [NTag.ctag, h, PlainText.identCTag]
+
+theorem NTag.ctag_at (t : NTag) (h : (t.nm == str "this") = false) (hn : PlainText.IdentName t.nm) :
+    PlainText.TagAt t.ctag.tag.src (t.nm.length + 110) t.ctag.tag.toks := by
+  obtain ⟨f, nm⟩ := t
+  cases f
+  · have := (PlainText.name_tagAt nm hn).weaken' (F' := nm.length + 110) (by omega)
+    simpa [NTag.ctag, h, PlainText.identCTag, PlainText.PTag.src, PlainText.identSrc, PlainText.identToks_eq, Nat.add_comm, Nat.add_left_comm] using this
+  · have := PlainText.html_name_tagAt nm hn
+    simpa [NTag.ctag, h, PlainText.identCTag, PlainText.PTag.src, PlainText.htmlSrc, Nat.add_comm, Nat.add_left_comm] using this
+  · have := PlainText.amp_name_tagAt nm hn
+    simpa [NTag.ctag, h, PlainText.identCTag, PlainText.PTag.src, PlainText.ampSrc, Nat.add_comm, Nat.add_left_comm] using this
+
+theorem namedSrc_eq : ∀ (more : List (NTag × Str)) (s0 : Str), (∀ q ∈ more, (q.1.nm == str "this") = false) →
+    PlainText.tailSrc s0 (PlainText.ptags (nctags more)) = namedSrc s0 more := by
+  intro more
+  induction more with
+  | nil => intro s0 _; simp [nctags, PlainText.tailSrc, namedSrc]
+  | cons q more ih =>
+    intro s0 h
+    obtain ⟨t, s'⟩ := q
+    have := ih s' (fun q hq => h q (by simp [hq]))
+    simp only [nctags] at this
+    simp [nctags, PlainText.tailSrc, namedSrc, this, NTag.ctag_src t (h (t, s') (by simp)), List.append_assoc]
+
+/-- a tag's name is shorter than the source it stands in -/
+theorem name_le_src : ∀ (more : List (NTag × Str)) (s0 : Str) (q : NTag × Str), q ∈ more → q.1.nm.length ≤ (namedSrc s0 more).length := by
+  intro more
+  induction more with
+  | nil => intro s0 q hq; simp at hq
+  | cons q0 more ih =>
+    intro s0 q hq
+    rcases List.mem_cons.mp hq with rfl | hq
+    · obtain ⟨⟨f, nm⟩, s'⟩ := q
+      cases f <;> simp [namedSrc, NTag.text] <;> omega
+    · have := ih q0.2 q hq
+      simp [namedSrc] at this ⊢
+      omega
+
+/-- the elements with the text each writes -/
+def ntailEts (esc : Str → Str) (val : Str → Json) : Str → List (NTag × Str) → List (Elem × Str)
+  | s, [] => if s = [] then [] else [(.raw s, s)]
+  | s, (t, s') :: more => (if s = [] then [] else [(.raw s, s)]) ++ [(t.ctag.el, t.output esc (val t.nm))] ++ ntailEts esc val s' more
+
+theorem ntailEts_elems (esc : Str → Str) (val : Str → Json) : ∀ (more : List (NTag × Str)) (s : Str),
+    (ntailEts esc val s more).map (·.1) = PlainText.tailElems s (nctags more) := by
+  intro more
+  induction more with
+  | nil => intro s; by_cases h : s = [] <;> simp [ntailEts, nctags, PlainText.tailElems, h]
+  | cons q more ih =>
+    intro s
+    obtain ⟨sp, s'⟩ := q
+    have := ih s'
+    simp only [nctags] at this ⊢
+    by_cases h : s = [] <;> simp [ntailEts, PlainText.tailElems, h, this]
+
+theorem ntailEts_text (esc : Str → Str) (val : Str → Json) : ∀ (more : List (NTag × Str)) (s : Str),
+    ((ntailEts esc val s more).map (·.2)).flatten = s ++ (more.map (fun q => q.1.output esc (val q.1.nm) ++ q.2)).flatten := by
+  intro more
+  induction more with
+  | nil => intro s; by_cases h : s = [] <;> simp [ntailEts, h]
+  | cons q more ih => intro s; obtain ⟨sp, s'⟩ := q; by_cases h : s = [] <;> simp [ntailEts, h, ih]
+
+theorem ntailEts_length (esc : Str → Str) (val : Str → Json) : ∀ (more : List (NTag × Str)) (s : Str),
+    (ntailEts esc val s more).length ≤ 2 * more.length + 1 := by
+  intro more
+  induction more with
+  | nil => intro s; by_cases h : s = [] <;> simp [ntailEts, h]
+  | cons q more ih => intro s; obtain ⟨sp, s'⟩ := q; have := ih s'; by_cases h : s = [] <;> simp [ntailEts, h] <;> omega
+
+/-- a name the theorem covers: an identifier other than `this` that names no helper and a field of the data -/
+structure NameOk (r : Registry) (data : Json) (val : Str → Json) (nm : Str) : Prop where
+  ident : PlainText.IdentName nm
+  notThis : (nm == str "this") = false
+  noHelper : assocGet r.helpers nm = none
+  safe : Spec.indexSafe data [nm] = true
+  value : Spec.descend data [nm] = some (val nm)
+
+/-- **render(S0 T1 S1 … Tk Sk) = S0 ++ out(T1) ++ S1 ++ … ++ out(Tk) ++ Sk for ANY NUMBER of value tags of ANY
+    identifiers**, each written `{{name}}`, `{{{name}}}` or `{{&name}}`, where `out({{n}}) = escape(text of data.n)` and
+    `out({{{n}}}) = out({{&n}}) = text of data.n`: every admissible choice of the texts (whitespace-only texts between two
+    tags included), every name of the grammar's `symbol_char` class (not beginning with `else`, not `this`, not a
+    registered helper), every data value under each name, every escape function.  Each `{{n}}` is escaped exactly once,
+    no `{{{n}}}` / `{{&n}}` ever – also next to a `{{n}}` of the same or another name.  (The bound on the number of tags
+    is the model's render fuel.) -/
+theorem texts_and_named_tags_render (r : Registry) (fs : FS) (s0 : Str) (more : List (NTag × Str)) (data : Json) (val : Str → Json)
+    (hdev : r.dev = false) (hnames : ∀ q ∈ more, NameOk r data val q.1.nm)
+    (hok : PlainText.TextsOk s0 (PlainText.ptags (nctags more))) (hmany : 2 * more.length + 14 ≤ renderFuel) :
+    r.renderTemplate fs (namedSrc s0 more) data
+      = .ok (s0 ++ (more.map (fun q => q.1.output r.escape (val q.1.nm) ++ q.2)).flatten) := by
+  unfold Registry.renderTemplate Registry.renderTemplateToWrite Registry.renderTemplateWithContextToWrite
+    Registry.compileForRenderTemplate
+  have hthis : ∀ q ∈ more, (q.1.nm == str "this") = false := fun q hq => (hnames q hq).notThis
+  have hsrcEq := namedSrc_eq more s0 hthis
+  have hTs : ∀ q ∈ PlainText.ptags (nctags more), PlainText.TagAt q.1.src (2 * (namedSrc s0 more).length + 150) q.1.toks := by
+    intro q hq
+    simp only [PlainText.ptags, nctags, List.map_map, List.mem_map] at hq
+    obtain ⟨⟨t, s⟩, hmem, rfl⟩ := hq
+    have hle := name_le_src more s0 (t, s) hmem
+    exact (NTag.ctag_at t (hthis _ hmem) (hnames _ hmem).ident).weaken' (by have : t.nm.length ≤ (namedSrc s0 more).length := hle; omega)
+  obtain ⟨m, hcomp⟩ := PlainText.compile_texts_tags (2 * (namedSrc s0 more).length + 150) { preventIndent := r.preventIndent } s0 (nctags more)
+    (Or.inr (by rw [hsrcEq]; exact Nat.le_refl _)) hTs hok
+  rw [← hsrcEq, hcomp]
+  simp only [Registry.renderResolved, hdev, Bool.not_false, ↓reduceIte]
+  rw [← ntailEts_elems r.escape val more s0]
+  have hgen : ∀ (more : List (NTag × Str)) (s : Str), (∀ q ∈ more, NameOk r data val q.1.nm) → ∀ p ∈ ntailEts r.escape val s more,
+      WritesText r data { ({ rootTemplate := none } : RC) with currentTemplate := none } p.1 p.2 := by
+    intro more
+    induction more with
+    | nil =>
+      intro s _ p hp
+      simp only [ntailEts] at hp
+      split at hp
+      · simp at hp
+      · simp at hp; subst hp; exact writes_raw r data _ rfl s
+    | cons q more ih =>
+      intro s hno p hp
+      obtain ⟨t, s'⟩ := q
+      have hq := hno (t, s') (by simp)
+      simp only [ntailEts, List.mem_append, List.mem_singleton] at hp
+      rcases hp with (hp | rfl) | hp
+      · split at hp
+        · simp at hp
+        · simp at hp; subst hp; exact writes_raw r data _ rfl s
+      · rw [NTag.ctag_el t hq.notThis]
+        obtain ⟨f, nm⟩ := t
+        cases f
+        · exact named_value_writes_escaped nm r data _ _ rfl rfl rfl rfl rfl hq.noHelper hq.safe hq.value
+        · exact named_html_writes_raw nm r data _ _ rfl rfl rfl rfl rfl hq.noHelper hq.safe hq.value
+        · exact named_html_writes_raw nm r data _ _ rfl rfl rfl rfl rfl hq.noHelper hq.safe hq.value
+      · exact ih s' (fun q hq => hno q (by simp [hq])) p hp
+  have hlen : (ntailEts r.escape val s0 more).length + 12 ≤ renderFuel := by
+    have := ntailEts_length r.escape val more s0; omega
+  have := render_writes_template r data none (ntailEts r.escape val s0 more) m { rootTemplate := none } hlen (hgen more s0 hnames)
+  simp only [Tmpl.name] at this ⊢
+  rw [this, ntailEts_text]
+
+/-- the source of the theorem is what it looks like: `a{{x}} {{{y-1}}}b` -/
+example : namedSrc ['a'] [(⟨.dbl, ['x']⟩, [' ']), (⟨.triple, ['y', '-', '1']⟩, ['b'])]
+    = ['a', '{', '{', 'x', '}', '}', ' ', '{', '{', '{', 'y', '-', '1', '}', '}', '}', 'b'] := by decide
 
 end Hbs.C02
